@@ -310,7 +310,8 @@ func (k Keeper) VaultIterateRewards(ctx sdk.Context, collectorLsr sdk.Dec, colle
 			}
 			var interest sdk.Dec
 			var err error
-			if vaultData.BlockHeight == 0 {
+			// as in CalculateVaultInterest: the pair's stamp also when it is later than the vault's own stamp
+			if vaultData.BlockHeight == 0 || collectorBt > vaultData.BlockTime.Unix() {
 				interest, err = k.rewards.CalculationOfRewards(ctx, vaultData.AmountOut, collectorLsr, collectorBt)
 				if err != nil {
 					return
